@@ -44,8 +44,8 @@ class C12(Prop):
     pid = 'C12'
     tag = 'all generated impls (no helper attributes present)'
     rule = ('shape grammar: unit/tuple/named structs and enums with 0-5 variants mixing kinds, 0-4 fields from {u8, &\'a str, T, '
-            '[u8; N], Option<T>, ()}, lifetime / type / const parameters (const with default), where-clauses, ?Sized tail with an '
-            'unsized last field, raw identifiers, repr(C) / non_exhaustive / doc attributes; supertrait-closed trait sets from '
+            '[u8; N], Option<T>, ()}, lifetime / type / const parameters (const with default), where-clauses, ?Sized tail parameter (inline or in the where-clause, '
+            'after other parameters) with an unsized last field, raw identifiers, repr(C) / non_exhaustive / doc attributes; supertrait-closed trait sets from '
             '{Clone, Debug, Default, PartialEq, Eq, PartialOrd, Ord, Hash}; both entry points; compiled next to a twin carrying the '
             'standard derives; clone / {:?} / {:#?} / default / == / partial_cmp / cmp compared on all values / ordered pairs, '
             'hash feeds of ==-equal values compared; non-trivial = at least one field or two variants')
@@ -57,7 +57,7 @@ class C12(Prop):
         out = []
         for k in range(self.n(tier)):
             is_enum = rng.random() < 0.5
-            unsized = (not is_enum) and rng.random() < 0.12
+            unsized = (not is_enum) and rng.random() < 0.25
             raw = rng.random() < 0.15
             traits = close([t for t in TRAITS if rng.random() < 0.45])
             if unsized:
@@ -72,7 +72,7 @@ class C12(Prop):
                                         for _ in range(n)]))
             if unsized:
                 kind = rng.choice(['named', 'tuple'])
-                variants = [(kind, [rng.choice([0, 1, 3]) for _ in range(rng.randrange(0, 3))] + ['TAIL'])]
+                variants = [(kind, [rng.choice([0, 1, 2, 3, 4]) for _ in range(rng.randrange(0, 3))] + ['TAIL'])]
             dv = None
             if 'Default' in traits and is_enum:
                 units = [i for i, (kd, fl) in enumerate(variants) if kd == 'unit']
@@ -96,9 +96,10 @@ class C12(Prop):
                 decl_g.append('T: Copy' if style == 1 else 'T')
                 use_g.append('T')
                 inst.append('u16')
+            u_where = 'U' in needs and rng.random() < 0.35      # `?Sized` written in the where-clause instead
             if 'U' in needs:
-                params.append(sx.gp_ty('U', [sx.tb_trait(['Sized'], maybe=True)]))
-                decl_g.append('U: ?Sized')
+                params.append(sx.gp_ty('U', [] if u_where else [sx.tb_trait(['Sized'], maybe=True)]))
+                decl_g.append('U' if u_where else 'U: ?Sized')
                 use_g.append('U')
                 inst.append('[u8]')
             if 'N' in needs:
@@ -107,10 +108,14 @@ class C12(Prop):
                 decl_g.append('const N: usize' + (' = 2' if dflt else ''))
                 use_g.append('N')
                 inst.append('2')
-            where, where_r = [], ''
+            where, where_l = [], []
             if 'T' in needs and rng.random() < 0.3:
                 where.append(sx.wty(T, [sx.tb_trait(['Sized'])]))
-                where_r = ' where T: Sized'
+                where_l.append('T: Sized')
+            if u_where:
+                where.append(sx.wty(sx.tid('U'), [sx.tb_trait(['Sized'], maybe=True)]))
+                where_l.append('U: ?Sized')
+            where_r = (' where ' + ', '.join(where_l)) if where_l else ''
             attrs, attrs_r = [], []
             r = rng.random()
             if r < 0.15 and not (is_enum and nvar == 0):
@@ -142,7 +147,7 @@ class C12(Prop):
             req = sx.inv_attr(sx.dx(tl), it) if mode == 'attr' else sx.inv_derive(
                 kw + sx.a_derive_ex(sx.dx(tl)) + ' ' + it[len(kw):])
             feats = ['enum%d' % nvar if is_enum else 'struct', mode] + ['tr-' + t for t in traits] + \
-                    (['unsized-tail'] if unsized else []) + (['raw'] if raw else []) + ['gen-' + x for x in sorted(needs)] + \
+                    (['unsized-tail', 'unsized-where' if u_where else 'unsized-inline'] if unsized else []) + (['raw'] if raw else []) + ['gen-' + x for x in sorted(needs)] + \
                     ['%s%d' % (kd, len(fl)) for kd, fl in variants] + attrs_r
             out.append((req, dict(features=tuple(sorted(set(feats))), enum=is_enum, variants=variants, traits=traits, dv=dv,
                                   decl_g=decl_g, inst=inst, where_r=where_r, attrs_r=attrs_r, names=names, raw=raw,
